@@ -15,7 +15,9 @@
    The image state is the header consumables {vox_offset, datatype, scl_slope, scl_inter,
    magic}, the pending dtype alias, and opaque identities of data and affine.  Every call on
    a destination file object consults the fault oracle `o : nat -> bool` ("the k-th call
-   raises OSError").  What is written is kept symbolically (which header state / which slab
+   raises"); the oracle abstracts from the exception type (OSError, KeyboardInterrupt,
+   MemoryError, ...: result EOS stands for "the injected exception propagated") except for the
+   one place where the code looks at it, seek_tell's `except OSError` (flag oserr).  What is written is kept symbolically (which header state / which slab
    under which scaling).  Facts about the data that other properties own (does the writer
    refuse, which slope/intercept it computes, what an alias resolves to, how many slabs) are
    Section variables: the theorems hold for every value of them.  Definitions only. *)
@@ -80,7 +82,9 @@ Definition finally {A} (m : M A) (fin : img -> img) : M A :=
 Fixpoint sumz (l : list Z) : Z := match l with [] => 0 | x :: r => x + sumz r end.
 
 Section Env.
-  Variable o : nat -> bool.                   (* the k-th file-object call raises OSError *)
+  Variable o : nat -> bool.                   (* the k-th file-object call raises *)
+  Variable oserr : bool.                      (* what it raises is an OSError: the only kind seek_tell catches;
+                                                 nothing else in the save depends on the exception type *)
   Variable resolve : al -> Z -> option Z.     (* _get_analyze_compat_dtype / _get_smallest_dtype *)
   Variable dt_ok : Z -> bool.                 (* header_class supports the dtype *)
   Variable wfail : Z -> Z -> bool.            (* make_array_writer raises WriterError *)
@@ -97,6 +101,8 @@ Section Env.
   (* volumeutils.seek_tell(fileobj, target, write0) with the file at position cur *)
   Definition seek_tell (f : fkey) (cur target : Z) (write0 : bool) : M unit := fun s =>
     if o (rk s) then
+      if negb oserr then (Err EOS, mkRs (rimg s) (S (rk s)) (rlog s))   (* not an OSError: propagates *)
+      else
       (* seek raised OSError: caught *)
       bind (fcall f CTell) (fun _ =>
         if cur =? target then ret tt
